@@ -35,7 +35,7 @@ def printed_name(filename: str, cwd: str) -> str:
 def make_error(rng, cwd: str):
     from refurb.error import Error
     prefix = rng.choice(["FURB", "FURB", "ABC", "WXYZ"])
-    code = rng.choice([100, 123, 999, 188])
+    code = rng.choice([100, 123, 999, 188, 7, 42, 0, 1000, 12345])      # plugin codes need not have three digits
     cls = type("ErrorInfo", (Error,), {"prefix": prefix, "code": code, "categories": ()})
     n = rng.choice([0, 1, 2, 3, 4, 4, 4, 5, 6])
     parts = []
